@@ -13,6 +13,127 @@ from vf import kinds, p21, sess, tlc
 from vf.common import InfraError, mkdir
 
 
+def family_lines(ctx, wd):
+    """C15 on generated schemas (spec/Population_GenMissing.tla): every parameter of every instance of the family's
+    conforming populations replaced by `$`, read in both modes by a reader built against the schema's own generated
+    library; same events, same trace specification."""
+    import concurrent.futures as cf
+    from checks import c01
+    from vf import build, express
+    from vf.common import sha
+    cases = []
+    g = tlc.run_tlc("Population_GenMissing", None, workers=4, timeout=900, on_case=cases.append,
+                    cfg_text="CONSTANTS Deep = %s Rounds = %d\nINIT Init\nNEXT Next\nINVARIANT Emit\n" % ("FALSE" if ctx.quick else "TRUE", 0 if ctx.quick else 1))
+    if g.rc != 0 or g.errors:
+        raise InfraError("Population_GenMissing failed: %s" % g.tail[-10:])
+    by = {}
+    for c in cases:
+        by.setdefault(json.dumps(c["choice"], sort_keys=True), []).append(c)
+    keys = sorted(by)
+    if ctx.quick:
+        strata = {}
+        for k in keys:
+            ch = json.loads(k)
+            strata.setdefault((ch["inh"], ch["ts"]["k"], ch["ts"].get("of", ""), ch["ak"]), []).append(k)
+        keys = sorted(v[len(v) // 2] for v in strata.values())
+
+    def refs_of(v, acc):
+        if v["k"] == "ref":
+            acc.add(v["id"])
+        elif v["k"] == "typed":
+            refs_of(v["v"], acc)
+        elif v["k"] == "list":
+            for x in v["items"]:
+                refs_of(x, acc)
+        return acc
+
+    def one(k):
+        cs = by[k]
+        txt = express.render(cs[0]["schema"])
+        tag0 = "c02_" + sha(txt)[:10]
+        try:
+            lib = build.schema_lib(tag0, txt)
+            drv = build.link_driver("session_" + tag0, [c01.DRV], schema=lib)
+        except build.BuildFailure as ex:
+            return k, None, str(ex)[-400:]
+        bwd = mkdir(os.path.join(wd, "fam_" + sha(k)[:8]))
+        head = "ISO-10303-21;\n" + p21.HEADER % cs[0]["schema"]["name"].upper() + "DATA;\n"
+        scripts, metas = [], []
+        for c in cs:
+            pop = c["pop"]
+            for pl in sorted(c["places"], key=lambda x: (x["i"], x["j"])):
+                for strict in (False, True):
+                    lines = []
+                    for q, inst in enumerate(pop):
+                        ps = [c01.aval(v) for v in inst["params"]]
+                        if q + 1 == pl["i"]:
+                            ps[pl["j"] - 1] = "$"
+                        lines.append("#%d=%s(%s);" % (inst["id"], inst["ent"].upper(), ",".join(ps)))
+                    fid = pop[pl["i"] - 1]["id"]
+                    touched = {fid}
+                    for _ in range(4):
+                        for inst in pop:
+                            rs = set()
+                            for pv in inst["params"]:
+                                refs_of(pv, rs)
+                            if rs & touched:
+                                touched.add(inst["id"])
+                    t2 = "M%s_%d_%d_%d_%d" % (sha(k)[:8], c["n"], pl["i"], pl["j"], int(strict))
+                    fp = os.path.join(bwd, t2 + ".p21")
+                    open(fp, "w").write(head + "\n".join(lines) + "\nENDSEC;\nEND-ISO-10303-21;\n")
+                    op = os.path.join(bwd, t2 + "_o.p21")
+                    scripts.append((t2, ["new %d" % int(strict), "read " + fp, "states", "writenv " + op]))
+                    metas.append((t2, c, pl, strict, fid, touched, lines, op))
+        res = {}
+        for b in range(0, len(scripts), 200):
+            res.update(sess.run_scripts(drv, scripts[b:b + 200], bwd, timeout=600))
+        evs = []
+        for t2, c, pl, strict, fid, touched, lines, op in metas:
+            r = res.get(t2, [])
+            rd = r[1] if len(r) > 1 else {}
+            ev = {"e": "Missing", "kind": pl["kind"], "opt": pl["opt"], "strict": strict, "form": "$",
+                  "ctx": "generated:inherited" if pl["inherited"] else "generated:own", "pos": pl["j"], "tag": t2}
+            if rd.get("cmd") != "read" or len(r) < 4 or r[3].get("cmd") != "writenv":
+                ev.update({"sev": -9, "exit": -1, "wclass": "crash", "others_ok": False})
+            else:
+                ev["sev"] = rd["esev"]
+                ev["exit"] = 1 if rd["esev"] <= 1 else 0
+                try:
+                    d = p21.parse(open(op).read())
+                    got = {x["id"]: x for x in d["data"]}
+                    me = got.get(fid)
+                    if me is None:
+                        ev["wclass"] = "absent"
+                    else:
+                        ev["wclass"] = kinds.wclass(me["parts"][0][1][pl["j"] - 1])
+                    ok = True
+                    for q, inst in enumerate(c["pop"]):
+                        if inst["id"] in touched:
+                            continue
+                        want = p21.Parser(lines[q]).instance(False)
+                        g1 = got.get(inst["id"])
+                        if g1 is None or len(g1["parts"][0][1]) != len(want["parts"][0][1]) or \
+                                not all(c01.same_value(u, v) for u, v in zip(want["parts"][0][1], g1["parts"][0][1])):
+                            ok = False
+                            ev["why"] = "#%d comes back as %s" % (inst["id"], p21.render_instance(g1) if g1 else None)
+                            break
+                    ev["others_ok"] = ok
+                except Exception as ex:   # unparsable / missing output
+                    ev["wclass"] = "unreadable:" + str(ex)[:60]
+                    ev["others_ok"] = False
+            evs.append((json.dumps(ev), (c["choice"], pl, "\n".join(lines))))
+        shutil.rmtree(bwd, ignore_errors=True)
+        return k, evs, ""
+    out = []
+    with cf.ThreadPoolExecutor(max_workers=3) as ex:
+        for k, evs, err in ex.map(one, keys):
+            if evs is None:
+                ctx.violation("family-build|" + k, "generated library of a family schema does not build: " + err[-200:], {"choice": k})
+                continue
+            out.extend(evs)
+    return out, len(keys)
+
+
 def run(ctx):
     cov = {}
     drv = kinds.driver()
@@ -78,6 +199,11 @@ def run(ctx):
                 ev["wclass"] = "unreadable:" + str(ex)[:60]
                 ev["others_ok"] = False
         lines.append(json.dumps(ev))
+    fam, nfam = family_lines(ctx, wd)
+    fmeta = {}
+    for ln, m in fam:
+        fmeta[json.loads(ln)["tag"]] = m
+        lines.append(ln)
     open(trace, "w").write("\n".join(lines) + "\n")
     got = []
     r = tlc.run_tlc("P21Read_Trace", "P21Read_Trace.cfg", workers=1, timeout=900, env={"TRACE": trace}, on_case=got.append)
@@ -85,6 +211,14 @@ def run(ctx):
         raise InfraError("P21Read_Trace did not consume the record: rc=%s %s" % (r.rc, r.tail[-12:]))
     for rep in got:
         ev = rep["ev"]
+        if ev["tag"] in fmeta:
+            choice, pl, body = fmeta[ev["tag"]]
+            key = "dev:" + rep["dev"] if rep["dev"] else "%s|%s|opt=%s|strict=%s|%s" % (rep["what"], ev["kind"], ev["opt"], ev["strict"], ev["ctx"])
+            ctx.violation(key, "generated schema: missing %s attribute (%s, %s, %s, parameter %d): must %s, observed severity %s, written %s %s"
+                          % (ev["kind"], "OPTIONAL" if ev["opt"] else "required", "strict" if ev["strict"] else "lenient", ev["ctx"],
+                             ev["pos"], rep["what"], ev["sev"], ev["wclass"], ev.get("why", "")),
+                          {"choice": choice, "place": pl, "data_section": body, "event": ev})
+            continue
         c, where, idx, insts, out = meta[ev["tag"]]
         if rep["dev"]:
             key = "dev:" + rep["dev"]
@@ -95,7 +229,7 @@ def run(ctx):
                          ev["form"], ev["ctx"], ev["pos"], rep["what"], ev["sev"], ev["wclass"]),
                       {"case": c, "file": kinds.file_of(insts), "event": ev})
     shutil.rmtree(wd, ignore_errors=True)
-    cov.update({"traces_validated_against_impl": len(lines), "exhaustive": True, "cases": len(cases),
+    cov.update({"traces_validated_against_impl": len(lines), "exhaustive": True, "cases": len(cases), "family_schemas": nfam, "family_places_x_modes": len(fam),
                 "disagreeing": len(got),
                 "samples": [json.loads(lines[0]), json.loads(lines[len(lines) // 2])],
                 "evaluations": len(lines), "distinct_nontrivial": len(lines),
